@@ -10,9 +10,10 @@ from . import tlc
 from .common import REPO, PY, MachineryError
 
 FILTER = '${%edition} == 4'
-ALL_MODES = '{[info |-> i, cont |-> c, filt |-> f] : i \\in BOOLEAN, c \\in BOOLEAN, f \\in BOOLEAN}'
+ALL_MODES = '{[info |-> i, cont |-> c, filt |-> f, ive |-> FALSE] : i \\in BOOLEAN, c \\in BOOLEAN, f \\in BOOLEAN}'
+IVE_MODES = '{[info |-> FALSE, cont |-> c, filt |-> f, ive |-> TRUE] : c \\in BOOLEAN, f \\in BOOLEAN}'
 INVS = ['YieldsExactlyMessages', 'NeverRaisesOnValid', 'DecoyNeverStartsMessage', 'ContinueSkipsOnlyDamaged',
-        'NoContinueDeliversPrefixThenError', 'YieldedSpansAreDisjointAndOrdered', 'NoPrefixDecodes', 'Emit']
+        'NoContinueDeliversPrefixThenError', 'YieldedSpansAreDisjointAndOrdered', 'NoPrefixDecodes', 'IveWaivesOnlyStop', 'Emit']
 
 
 def tlc_run(wd, name, maxmsgs, pool, seps, faults, modes=ALL_MODES, uniform=False, cuts=False, timeout=3000, sweep=(1, 0, 1)):
@@ -38,6 +39,9 @@ def run_case(c):
     data = bytes(c['stream'])
     mode = c['mode']
     feat = '%s,%s,%s' % ('info' if mode['info'] else 'full', 'cont' if mode['cont'] else 'stop', 'filter' if mode['filt'] else 'nofilter')
+    if mode.get('ive'):
+        feat += ',ive'
+    extra = {'ignore_value_expectation': True} if mode.get('ive') else {}
     faults = ','.join(sorted(f for f in c['faults'] if f != 'none')) or 'valid'
     del _verif.EVENTS[:]
     got = []
@@ -46,7 +50,7 @@ def run_case(c):
     try:
         with contextlib.redirect_stderr(io.StringIO()):
             for m in generate_bufr_message(Decoder(), data, info_only=mode['info'], continue_on_error=mode['cont'],
-                                           filter_expr=FILTER if mode['filt'] else None):
+                                           filter_expr=FILTER if mode['filt'] else None, **extra):
                 got.append(bytes(m.serialized_bytes))
     except PyBufrKitError as e:
         status = 'raised'
